@@ -23,6 +23,14 @@ CLAIMED = {
             "N itself is sampled; memchr is a C stub from the ISO text (CBMC ships no model)."),
     "C16": ("proof", "required_base/optional_base for the 22 built-in types: null, has_value, value_or, in_range, all six comparisons against the documented rules incl. NaN; min/max/null against the SBE table.", "DESIGN.md 6 C16",
             "Schema-defined types with explicit min/max/null are covered per corpus schema when the generated-layer contracts are registered."),
+    "C06": ("proof", "size_bytes_checked(view, n) per corpus message on a buffer object of exactly n bytes (unchecked build): any read at offset >= n is a CBMC pointer-check failure for every n and content at once; valid/size against an independent fits predicate; ghost step counter.",
+            "DESIGN.md 6 C06", "Two genuine defects are listed as known findings (fields read beyond a short wire block; data length prefix read before validation); messages with groups are bounded (numInGroup <= 2) and counted as bounded; nested groups not covered."),
+    "C17": ("translation_validation", GEN + "fill_message_header / fill_group_header of every corpus message and group: each identifying member holds the oracle's value at the oracle's offset and width, the frame is exactly those members' bytes, the result views the header.",
+            "DESIGN.md 6 C17", "Header layouts are those of the corpus."),
+    "C18": ("translation_validation", GEN + "Every value-returning trait function of every corpus entity (schema, messages, groups, fields, data, types, enums and values, sets and choices, composites) equals the XML value (strings compared character by character).",
+            "DESIGN.md 6 C18", "Type-level traits (value_type, tag lists, predicates) are types, not functions: not decided."),
+    "C19": ("proof", GEN + "visit_children of every corpus level (without nested groups) with a recording visitor that stops at a symbolic callback ordinal: kinds, schema ids, values/addresses in schema order, stop result, final cursor.",
+            "DESIGN.md 6 C19", "Enum/set visiting and by-tag access are covered only where registered; entry loops of groups by the library loop contracts."),
     "C15": ("proof",
             "bitset_base<T> get_bit/set_bit/raw access/==/!=/constructors proved bit-exactly against a 64-bit spec for all 2^W values x all indices x both bool values, W in {8,16,32,64}, with shift-distance checks on; loop-free, so unbounded.",
             "DESIGN.md section 6 C15", "Generated choice accessors/visit are covered per corpus schema only."),
